@@ -31,7 +31,9 @@ pub fn hash_bytes(b: &[u8]) -> u64 {
 }
 
 fn lock_options(dir: &Path) -> Options {
-    let mut o = Options::with_columns(dir, 1);
+    // column 0: plain keys; column 1: trees (a tree reader obtained from a handle can outlive it)
+    let mut o = Options::with_columns(dir, 2);
+    o.columns[1].multitree = true;
     o.with_background_thread = false;
     o.always_flush = true;
     o
@@ -139,6 +141,9 @@ pub fn cmd_lock_replay(args: &HashMap<String, String>) -> i32 {
         let steps: J = serde_json::from_str(line).unwrap();
         let dir = fresh_dir(&root, &format!("l{idx}"));
         let mut handles: HashMap<u64, Handle> = HashMap::new();
+        // tree readers the client keeps (declared after the handles: they are given back when the model says so,
+        // or at the very end)
+        let mut kept: HashMap<u64, _> = HashMap::new();
         let mut viol: Vec<J> = Vec::new();
         // keys committed through handles that were later dropped cleanly (must stay readable)
         let mut durable: Vec<String> = Vec::new();
@@ -253,6 +258,29 @@ pub fn cmd_lock_replay(args: &HashMap<String, String>) -> i32 {
                         None => bad("harness: no handle".into()),
                     }
                     pending.remove(&actor);
+                },
+                "Keep" => match handles.get(&actor) {
+                    Some(Handle::Local(db)) => {
+                        let tkey = b"tree".to_vec();
+                        if matches!(db.get_tree(1, &tkey), Ok(None)) {
+                            let node = parity_db::NewNode { data: vec![1, 2, 3], children: Vec::new() };
+                            if db.commit_changes(vec![(1u8, parity_db::Operation::InsertTree(tkey.clone(), node))]).is_err() {
+                                bad("harness: the tree could not be committed".into());
+                            }
+                            drive_pipeline(db, (i as u64 + idx as u64) % 4);
+                        }
+                        match db.get_tree(1, &tkey) {
+                            Ok(Some(r)) => {
+                                kept.insert(actor, r);
+                            },
+                            Ok(None) => bad("get_tree finds no tree although one was committed".into()),
+                            Err(e) => bad(format!("get_tree: {e}")),
+                        }
+                    },
+                    _ => bad("harness: Keep needs a handle of this process".into()),
+                },
+                "Release" => {
+                    kept.remove(&actor);
                 },
                 other => bad(format!("harness: unknown step {other}")),
             }
